@@ -355,24 +355,29 @@ Concat(ss, m) == IF m = 0 THEN <<>> ELSE Concat(ss, m - 1) \o ss[m]
 ViewsTile == Concat(AllViews(L, x), Len(L.vars)) = x /\ Concat(AllViews(L, xi), Len(L.vars)) = xi
 \* scaling to solver units and back returns the original data, in every mode the kind has, and the other way round;
 \* in complex-step mode for both planes
-ScaleRoundTrip == TameC(Sto) => \A mode \in ModesOf(kind) : /\ ToPhys(L, kind, mode, ToNorm(L, kind, mode, x)) = x
-                                                              /\ ToNorm(L, kind, mode, ToPhys(L, kind, mode, x)) = x
-                                                              /\ ToPhysI(L, kind, mode, ToNormI(L, kind, mode, xi)) = xi
-                                                              /\ ToNormI(L, kind, mode, ToPhysI(L, kind, mode, xi)) = xi
+ScaleRoundTrip == TameC(Sto) => \A mode \in ModesOf(kind) : /\ ToPhys(L, kind, mode, TLCEval(ToNorm(L, kind, mode, x))) = x
+                                                              /\ ToNorm(L, kind, mode, TLCEval(ToPhys(L, kind, mode, x))) = x
+                                                              /\ alloc => /\ ToPhysI(L, kind, mode, TLCEval(ToNormI(L, kind, mode, xi))) = xi
+                                                                          /\ ToNormI(L, kind, mode, TLCEval(ToPhysI(L, kind, mode, xi))) = xi
 \* the reverse-mode scaling is the dual of the forward one: the pairing of a primal and a dual vector does not depend
-\* on the units it is taken in (the complex bilinear pairing of the visible arrays)
+\* on the units it is taken in (the pairing is dot(): of the real arrays out of complex-step mode, the complex bilinear
+\* one in the mode)
 DualPairing == TameC(Sto) /\ Linear(kind) =>
-                   CDot(<<ToNorm(L, kind, "fwd", Vis[1]), ToNormI(L, kind, "fwd", Vis[2])>>,
-                        <<ToNorm(L, kind, "rev", VisY[1]), ToNormI(L, kind, "rev", VisY[2])>>) = CDot(Vis, VisY)
+                   LET nx == TLCEval(ToNorm(L, kind, "fwd", x))
+                       ny == TLCEval(ToNorm(L, kind, "rev", y))
+                   IN IF ~cs THEN VDot(nx, ny) = VDot(x, y)
+                      ELSE CDotP(nx, TLCEval(ToNormI(L, kind, "fwd", xi)), ny, TLCEval(ToNormI(L, kind, "rev", yi))) = CDotP(x, xi, y, yi)
 \* a named write changes nothing outside the variable's slice, in either plane
 NamedWriteFrame ==
     [][\A v \in 1..Len(L.vars) :
           (Len(hist') > Len(hist) /\ hist'[Len(hist')].a.n \in {"set_name", "set_var"} /\ hist'[Len(hist')].a.var = v)
               => \A p \in 1..Len(x) : ~InVar(L, v, p) => x'[p] = x[p] /\ xi'[p] = xi[p]]_vars
 \* norm^2 of the visible array is non-negative and zero only for the zero array; out of the mode it is dot(x, x)
-NormLaw == TameC(Sto) => /\ Ge(CNorm2(Vis), Zero)
-                         /\ (CNorm2(Vis) = Zero <=> \A i \in DOMAIN x : Vis[1][i] = Zero /\ Vis[2][i] = Zero)
-                         /\ (~cs => CDot(Vis, Vis) = <<CNorm2(Vis), Zero>>)
+NormLaw == TameC(Sto) => LET n2 == IF cs THEN Add(VDot(x, x), VDot(xi, xi)) ELSE VDot(x, x)
+                         IN /\ Ge(n2, Zero)
+                            /\ (n2 = Zero <=> \A i \in DOMAIN x : x[i] = Zero /\ (cs => xi[i] = Zero))
+                            /\ n2 = CNorm2(Vis)
+                            /\ (~cs => CDot(Vis, Vis) = <<n2, Zero>>)
 \* the second vector is never written
 OtherUntouched == [][y' = y /\ yi' = yi]_vars
 \* out of complex-step mode the hidden imaginary plane is changed by SET operations only, and only to zero (real data
